@@ -193,7 +193,7 @@ def qx_rows(node):
     exp = node.mq.expected(node.data, qx.Evaluator(node.data))
     if exp.undecided or any(r.optional or r.wild for r in exp.rows): raise core.HarnessError('base query %s has no fixed reference result' % node.base.id)
     rows = [MRow(r.vals, r.env) for r in exp.rows]
-    for pr in node.post: rows = [r for r in rows if pred(pr, r.vals) is True]
+    for pr in node.post: rows = [r for r in rows if pred_row(node, pr, r) is True]
     return rows
 
 OPS = {'eq': '==', 'gt': '>', 'lt': '<', 'ge': '>=', 'le': '<=', 'ne': '!='}
@@ -216,6 +216,37 @@ def pred(pr, vals):
         if r is False: return False
         if r is None: res = None
     return res
+
+def pred_row(node, pr, row):
+    """pred() plus ('xp', X): a condition tree over the variables bound in the row's environment (the iterated
+    variables of a base query, the result names of a query over a limited subquery), evaluated by the QX reference
+    evaluator - used for conditions with aggregates over collections"""
+    if pr[0] != 'xp': return pred(pr, row.vals)
+    if row.env is None: raise core.HarnessError('row without environment')
+    try: return evaluator(node.data).cond(pr[1], qx.Env(dict(row.env.vars)))
+    except qx.Undef: return None
+
+# aggregates over a collection: entity -> (collection attribute, numeric attribute of its items, count bound, sum bound)
+AGG = {'Person': ('tags', 'w', 2, 1), 'Dept': ('persons', 'n', 2, 1), 'Tag': ('persons', 'n', 2, 1)}
+def agg_target(node):
+    """(result name | None, original name, entity) of the variable whose collection the aggregate forms use: the first
+    result column that is an entity, else (base queries and their filtered / ordered successors only) the first
+    iterated variable, which is then not part of the result row"""
+    if node.aggregated: return None
+    for i, (nm, t) in enumerate(node.rn):
+        if qx.is_ent(t) and t in AGG and node.orig[i].isidentifier(): return nm, node.orig[i], t
+    if node.src == 'qx':
+        v0, s0 = node.base.q.fors[0]
+        if isinstance(s0, X) and s0.op == 'ent' and s0.v in AGG: return None, v0, s0.v
+    return None
+def agg_trees(node, res=False):
+    """(count(v.coll) < c, sum(v.coll.a) >= s, count(v.coll), sum(v.coll.a)) as QX trees over the original name
+    (res: over the result / lambda argument name - for the text handed to Pony only)"""
+    r, o, ent = agg_target(node)
+    coll, a, cb, sb = AGG[ent]
+    v = var(r if res else o, ent)
+    cnt = call('count', INT, attr(v, coll)); sm = call('sum', INT, attr(attr(v, coll), a))
+    return call('lt', COND, cnt, const(cb)), call('ge', COND, sm, const(sb)), cnt, sm
 
 def col_value(v, a):
     if a is None or v is None: return v
